@@ -178,7 +178,7 @@ def replay(params, model, notes, workdir, seed):
                 perms = listing_orders(len(names))
                 if int(v) < len(perms):
                     return [names[i] for i in perms[int(v)]]
-        return names[::-1]
+        return names if (params.get("damage") and params.get("decoy", "none") != "none") else names[::-1]
     os.listdir = listdir
     try:
         try:
